@@ -75,6 +75,8 @@ def show(v):
         return '<%s>' % v[1]
     if t == 'neg':
         return '<negative>'
+    if t == 'pos':
+        return '<%s>' % v[1]
     if t == 'sym':
         return v[1]
     if t == 'addr':
@@ -223,6 +225,8 @@ class Machine:
         self.locks = []           # lock objects (values) currently held
         self.on_lock = None       # hook(lock value, loc): the environment acts when a lock is acquired (R-C19f)
         self.on_kill = None       # hook(event) -> value of a raw kill()
+        self.on_unlock = None     # hook(lock value, loc): after a lock was released (R-C19g)
+        self.env = {}             # name -> model: environment calls of one particular run (take precedence over MODELLED)
 
     # -- cloning (fork) -------------------------------------------------------
     def fork(self):
@@ -571,8 +575,12 @@ class Machine:
                 return {'<': d < 0, '>': d > 0, '<=': d <= 0, '>=': d >= 0}[op]
         if is_i(a) and not is_i(b):
             return self.compare(SW[op], b, a)
-        if a == b and a[0] in ('addr', 'fn', 'str', 'fd', 'sym', 'int'):
+        if a == b and a[0] in ('addr', 'fn', 'str', 'fd', 'sym', 'int', 'pos'):
             return op in ('==', '<=', '>=')
+        if a[0] == 'pos' and is_i(b):          # some positive integer (the process id fork() returns in the parent)
+            if b[1] <= 0:
+                return {'==': False, '!=': True, '<': False, '<=': False, '>': True, '>=': True}[op]
+            return None
         if nonnull(a) and is_i(b, 0):
             return {'==': False, '!=': True, '<': False, '<=': False, '>': True, '>=': True}[op]
         if nonnull(a) and nonnull(b) and a[0] in ('addr', 'fn') and b[0] in ('addr', 'fn'):
@@ -596,7 +604,7 @@ class Machine:
     def truth_static(self, v):
         if is_i(v):
             return v[1] != 0
-        if nonnull(v) or v[0] == 'fd' or v[0] == 'neg':
+        if nonnull(v) or v[0] in ('fd', 'neg', 'pos'):
             return True
         if v[0] == 'un' and v[1] == '!':
             t = self.truth_static(v[2])
@@ -643,7 +651,7 @@ class Machine:
     def steps_into(self, f):
         if f is None or not f.blocks:
             return False
-        if f.name in MODELLED:
+        if f.name in MODELLED or f.name in self.env:
             return False
         if f.file.endswith(self.home):
             return True
@@ -724,6 +732,16 @@ class Machine:
                             nxt = blk.succ[-1]
                     else:
                         labels = [str(c) for c in cases] + (['after'] if len(blk.succ) > len(cases) else [])
+                        # case labels the abstract value cannot equal (a positive pid against 0 / -1) are not taken
+                        cand = [i for i, cv in enumerate(cases) if cv == 'default' or not isinstance(cv, int) or self.compare('==', v, I(cv)) is not False]
+                        if len(blk.succ) > len(cases) and 'default' not in cases:
+                            cand.append(len(cases))
+                        if len(cand) == 1:
+                            nxt = blk.succ[cand[0]]
+                            if nxt is None:
+                                return rv
+                            b = nxt
+                            continue
                         c = self.orc.choose(('switch', v), labels)
                         self.undecided.append({'term': v, 'loc': t.get('loc'), 'fn': self.cur_fn, 'phase': self.phase, 'role': self.role})
                         nxt = blk.succ[c]
@@ -791,7 +809,7 @@ class Machine:
     # -- the environment model ----------------------------------------------------
     def external(self, name, args, e):
         loc = e.get('loc')
-        h = MODELLED.get(name)
+        h = self.env.get(name) or MODELLED.get(name)
         if h is not None:
             return h(self, name, args, loc)
         if name in UNMODELLED:
@@ -1015,6 +1033,8 @@ def m_lock(m, name, args, loc):
         m.note('unlock', name, args, loc, obj=lk)
         if lk in m.locks:
             m.locks.remove(lk)
+        if m.on_unlock is not None:
+            m.on_unlock(lk, loc)
     return None
 
 
@@ -1186,6 +1206,133 @@ def helper_runs(prog, f, flags0, deadvals, sig, setlocks):
             r.ret = m.call(f, [('addr', WAIT_OBJ), sig])
         except PathEnd as pe:
             r.end = pe.why
+        return r
+    out = []
+    for trail, r in explore(scenario, None):
+        r.trail = trail
+        out.append(r)
+    return out
+
+
+# ----------------------------------------------------------------------------
+# the spawn helper of the wait module, run against the reaper (R-C19g)
+# ----------------------------------------------------------------------------
+
+SPAWN_FN = ('sym', 'spawn-function')
+SPAWN_COOKIE = ('sym', 'spawn-cookie')
+NEW_PID = ('pos', 'pid-of-the-new-child')
+BENIGN_IN_WAIT_MODULE = ('iv_signal_register', 'iv_event_register', 'iv_task_register', 'signal', 'sigaction')
+
+
+def set_tree_values(prog):
+    """machine values of the tree object(s) that are the pid set: the trees the reaper (the root that calls wait4/waitpid)
+    deletes a reaped pid from, evaluated like the lock in set_lock_values.  Empty when none evaluates to a file-scope object."""
+    h11 = _h11
+    vals = set()
+    m = Machine(prog, Oracle([], None), ())
+    for v in h11.views(prog):
+        evs = list(v.g.events())
+        if not any(v.is_reap(e) for e in evs):
+            continue
+        m.home = (v.root.file,)
+        for e in evs:
+            if not v.is_delete(e):
+                continue
+            try:
+                val = m.rvalue(v.origin(e['args'][0]), 0)
+            except AnalysisBroken:
+                continue
+            if isinstance(val, tuple) and val[0] == 'addr' and val[1][0][0] == 'G':
+                vals.add(val)
+    return vals
+
+
+class SpawnRun:
+    pass
+
+
+def _m_benign(m, name, args, loc):
+    m.note('call', name, args, loc)
+    return m.fresh(name)
+
+
+def _m_list_init(m, name, args, loc):
+    h = _obj_loc(m, args[0])
+    m.write(h + (('f', 'next'),), ('addr', h), loc, quiet=True)
+    m.write(h + (('f', 'prev'),), ('addr', h), loc, quiet=True)
+    return None
+
+
+def _m_list_empty(m, name, args, loc):
+    h = _obj_loc(m, args[0])
+    return m.binop('==', m.read(h + (('f', 'next'),)), ('addr', h))
+
+
+def _m_list_add(m, name, args, loc):
+    e, h = _obj_loc(m, args[0]), _obj_loc(m, args[1])
+    m.write(h + (('f', 'next'),), ('addr', e), loc, quiet=True)
+    m.write(h + (('f', 'prev'),), ('addr', e), loc, quiet=True)
+    return None
+
+
+# the list primitives as the core presents them (open-coded forms are fused into these calls, inside the header functions
+# too, so they cannot be stepped into): only emptiness of a head is followed
+LIST_ENV = {'INIT_IV_LIST_HEAD': _m_list_init, 'iv_list_empty': _m_list_empty, 'iv_list_add': _m_list_add, 'iv_list_add_tail': _m_list_add,
+            'iv_list_del': _m_benign, 'iv_list_del_init': _m_benign, '__iv_list_steal_elements': _m_benign}
+
+
+def spawn_runs(prog, f, setlocks, settrees):
+    """All executions of f(&interest, fn, cookie), f the function of the wait module a child is spawned through, with fork()
+    modelled (returns the new pid in the parent / 0 in the child / fails) against the adversary that matters for `the exit
+    of the child is noticed`: from the moment fork() has returned in the parent the child may end, and the reaper (any
+    thread's SIGCHLD handler, which works under the lock of the pid set) may run whenever that lock is not held; it
+    finds the interest only if it is in the pid set under the child's pid.  Every moment at which the child exists, is not
+    yet findable and the set's lock is not held is recorded as a gap (the lock state only changes at fork-time, at an
+    unlock, so these are the moments looked at).  Insertions are logged with the pid the interest holds in memory at
+    that moment (the tree is ordered by it), the tree, and whether the lock is held."""
+    def scenario(orc):
+        r = SpawnRun()
+        m = r.m = Machine(prog, orc, (f.file,))
+        r.outcome, r.fork, r.gaps, r.inserts, r.findable, r.end, r.ret = None, None, [], [], False, 'done', None
+
+        def locked():
+            return any(l in setlocks for l in m.locks)
+
+        def m_fork(m_, name, args, loc):
+            if r.fork is not None:
+                raise AnalysisBroken('C19 machine: %s forks twice on one path' % f.name)
+            out = _outcome(m, 'fork', loc, ['parent', 'child', 'fails'])
+            r.outcome = out
+            r.fork = m.note('fork', name, args, loc, outcome=out, locked=locked(), held=tuple(m.locks))
+            if out == 'parent' and not locked():
+                r.gaps.append({'loc': loc, 'what': 'fork() returns in the parent while the lock of the pid set is not held', 'held': tuple(m.locks)})
+            return {'parent': NEW_PID, 'child': I(0), 'fails': I(-1)}[out]          # fork() fails with exactly -1
+
+        def m_insert(m_, name, args, loc):
+            node = args[1] if len(args) > 1 else None
+            mine = isinstance(node, tuple) and node[0] == 'addr' and node[1][:len(WAIT_OBJ)] == WAIT_OBJ
+            d = m.note('set-insert', name, args, loc, mine=mine, tree=args[0] if args else None, locked=locked(),
+                       pid=m.mem.get(WAIT_PID), outcome=r.outcome)
+            d['set'] = mine and (not settrees or d['tree'] in settrees)
+            r.inserts.append(d)
+            if d['set'] and r.outcome == 'parent' and d['pid'] == NEW_PID and d['locked']:
+                r.findable = True
+            return None
+
+        def on_unlock(lk, loc):
+            if r.outcome == 'parent' and not r.findable and lk in setlocks and not locked():
+                r.gaps.append({'loc': loc, 'what': 'the lock of the pid set is released after fork() and before the interest is in the set under the child\'s pid',
+                               'held': tuple(m.locks)})
+        m.env = {'fork': m_fork, 'iv_avl_tree_insert': m_insert}
+        for n in BENIGN_IN_WAIT_MODULE:
+            m.env[n] = _m_benign
+        m.env.update(LIST_ENV)
+        m.on_unlock = on_unlock
+        try:
+            r.ret = m.call(f, [('addr', WAIT_OBJ), SPAWN_FN, SPAWN_COOKIE])
+        except PathEnd as pe:
+            r.end = pe.why
+        r.locked_at_end = locked()
         return r
     out = []
     for trail, r in explore(scenario, None):
